@@ -1070,7 +1070,9 @@ pub fn check(tier: Tier) -> i32 {
 	}
 	completed.push("history after checkpoint/restore: 4 scenarios (2 back-ends x discarded timeline flushed or not)".into());
 	// --- part 5: process-crash images at every file-system call of an indexed flush workload ---
-	match run_crash_indexed_flush(&budget) {
+	// (own budget: the main one is usually used up by the enumeration above in the thorough tier)
+	let _ = &budget;
+	match run_crash_indexed_flush(&Budget::new(if tier == Tier::Quick { 20.0 } else { 120.0 })) {
 		Ok((n, found)) => {
 			evaluations += n;
 			completed.push(format!("crash during indexed flush/compaction: {n} distinct process-crash images of a 6-write workload with 3 flushes and a compaction"));
@@ -1138,6 +1140,59 @@ pub fn replay(r: &J) -> i32 {
 			}
 		};
 	}
+	// the other single-scenario engines: run the scenario twice, same verdict required
+	let simple = |name: &str, f: &dyn Fn() -> Result<Vec<(String, String)>, String>| -> i32 {
+		println!("replaying C10 {name}");
+		let (a, b) = (f(), f());
+		match (a, b) {
+			(Ok(a), Ok(b)) => {
+				let ca: Vec<&String> = a.iter().map(|x| &x.0).collect();
+				let cb: Vec<&String> = b.iter().map(|x| &x.0).collect();
+				if ca != cb {
+					eprintln!("machinery: replay not deterministic: {ca:?} vs {cb:?}");
+					return 2;
+				}
+				if a.is_empty() {
+					println!("replay passed: no violation");
+					return 0;
+				}
+				println!("VIOLATION property=C10 replay=<this file>");
+				for (c, t) in a {
+					println!("  class={c} {t}");
+				}
+				1
+			}
+			(Err(e), _) | (_, Err(e)) => {
+				eprintln!("machinery: {e}");
+				2
+			}
+		}
+	};
+	if r["engine"] == "c10-restore" {
+		let (index, flush_mid) = (r["index"].as_bool().unwrap_or(true), r["flush_mid"].as_bool().unwrap_or(false));
+		return simple("history after restore", &|| match crate::util::guarded(|| run_restore_history(index, flush_mid)) {
+			Ok(r) => r.map(|o| o.into_iter().map(|(c, t)| (format!("{}:{c}", if index { "index" } else { "lsm" }), t)).collect()),
+			Err(p) => Ok(vec![("restore:panic".into(), p)]),
+		});
+	}
+	if r["engine"] == "c10-crash" {
+		return simple("crash during indexed flush", &|| run_crash_indexed_flush(&Budget::new(600.0)).map(|(_, f)| f));
+	}
+	if r["engine"] == "c10-retention" {
+		let hops = hops_from_json(&r["hops"]);
+		return simple(&format!("finite retention: {}", hops_str(&hops)), &|| {
+			let mut out = vec![];
+			for index in [false, true] {
+				match crate::util::guarded(|| run_retention(&hops, 100, index)) {
+					Ok(Ok(None)) => {}
+					Ok(Ok(Some((c, t)))) => out.push((format!("{}:{c}", if index { "index" } else { "lsm" }), t)),
+					Ok(Err(e)) => return Err(e),
+					Err(p) => out.push(("retention:panic".into(), p)),
+				}
+			}
+			Ok(out)
+		});
+	}
 	let hops = hops_from_json(&r["hops"]);
 	println!("replaying C10 [{}] {}", r["backend"], hops_str(&hops));
 	let run = |name: &str| {
@@ -1146,7 +1201,8 @@ pub fn replay(r: &J) -> i32 {
 			"lsm-L3" => OptSet::base("versioned-lsm-L3").levels(3).versioned(0, false),
 			_ => OptSet::base("versioned-index").versioned(0, true),
 		};
-		crate::util::guarded(|| run_history(&opt, &hops))
+		let hold = r["reader_open"].as_bool().unwrap_or(false);
+		crate::util::guarded(|| run_history_full(&opt, &hops, false, hold))
 	};
 	let judge = || -> Result<Option<(String, String)>, String> {
 		let mut logs = vec![];
